@@ -19,6 +19,7 @@ var NameShapes = []nameShape{
 	{"dotted", []string{"pet.name"}, true, true, true},
 	{"digits", []string{"pet2x"}, true, true, true},
 	{"idsuffix", []string{"petId"}, true, true, true},
+	{"wordendingid", []string{"android"}, true, true, true},
 	{"idssuffix", []string{"pet_ids"}, true, true, true},
 	{"uuidsuffix", []string{"petUuid"}, true, true, true},
 	{"acronym", []string{"HTTPServerURL"}, true, true, true},
@@ -143,6 +144,8 @@ func buildNameCell(names []string, site string) *Doc {
 			d.Op("/t", "post", M{"operationId": names[1]})
 		}
 	case "segment":
+		d.Comp("responses", "Gone", Resp("gone", CloneM(body)))
+		d.Op("/"+names[0]+"/apps", "get", M{"responses": M{"200": M{"description": "ok"}, "410": Ref("responses", "Gone")}})
 		d.Op("/"+names[0], "get", nil)
 		d.Op("/x/"+names[0]+"/{v}", "get", M{"parameters": L{ParamNode("v", "path", true, Prim("string", ""))}})
 		if len(names) > 1 {
